@@ -76,5 +76,22 @@ def run(ctx):
     for _ in range(n_models):
         a, o, t = gen_valid(ctx.rng, ctx.quick, prefix_p=0.2)
         for _ in range(3):
-            A = gen_interp(ctx.rng, t, total=False, in_bounds=True)
+            A = gen_interp(ctx.rng, t, total=False, in_bounds=ctx.rng.random() < 0.7)
             do_case(ctx, {"ast": a, "A": {k: list(v) for k, v in A.items()}})
+        if ctx.rng.random() < 0.3:
+            # a leaf that is DECLARED constant, assumed to another value (an assumption may say anything)
+            lv = leaves_of(t)
+            name = ctx.rng.choice(sorted(lv))
+            c = ctx.rng.choice([0, 1, 1, 2, -1])
+            a2 = with_leaf_bounds(a, name, c, c)
+            try:
+                o2 = build(a2)
+                t2 = snap(o2)
+                if is_var(o2) or not well_formed(t2) or o2.errors():
+                    continue
+            except Exception:
+                continue
+            A = gen_interp(ctx.rng, t2, total=False, in_bounds=True)
+            A[name] = ctx.rng.choice([(c + 1, c + 1), (c - 1, c - 1), (c - 1, c + 1)])
+            ctx.tags["constant-leaf-assumed-otherwise"] += 1
+            do_case(ctx, {"ast": a2, "A": {k: list(v) for k, v in A.items()}})
